@@ -6,7 +6,7 @@
    matrices selected by the indices (first sentence of the property). *)
 From Coq Require Import ZArith List Lia Arith.
 Import ListNotations.
-Require Import Ring Sums Matrix Core Chain TTOps AddProof OpsProof Sweep SweepProof TensordotProof NormProof.
+Require Import Ring Sums Matrix Core Chain TTOps AddProof OpsProof Sweep SweepProof TensordotProof NormProof HodProof.
 Open Scope cr_scope.
 
 (* t + u *)
@@ -49,6 +49,14 @@ Theorem C01_matmul_linked (R : cring) (cs ds : list (core R)) f1 f2 :
   length ds = length cs -> linked cs f1 -> linked ds f2 -> linked (tmul cs ds) (f1 * f2).
 Proof. exact (linked_tmul cs ds f1 f2). Qed.
 Print Assumptions C01_matmul_linked.
+
+(* residual_error: the tensor whose norm is taken, (A @ x) - b, entry by entry *)
+Theorem C01_residual (R : cring) (A x b : list (core R)) xs zs :
+  A <> [] -> length x = length A -> length b = length A -> length xs = length A -> length zs = length A ->
+  wf A -> wf x -> wf b ->
+  elem (tsub (tmul A x) b) xs zs = msum (cols A) (fun ys => elem A xs ys * elem x ys zs) - elem b xs zs.
+Proof. exact (residual_dense A x b xs zs). Qed.
+Print Assumptions C01_residual.
 
 (* transpose of all cores, with or without conjugation *)
 Theorem C01_transpose (R : cring) cj (cs : list (core R)) xs ys : length xs = length ys ->
